@@ -332,7 +332,7 @@ func (c *monC13) End(m *Machine) *Violation { return nil }
 var kindsC13 = []wk{
 	{"login", 14}, {"totpvalidate", 6}, {"smsvalidate", 6}, {"totpsetup", 8}, {"totpconfirm", 6}, {"totpremove", 10}, {"smssetup", 8},
 	{"smsconfirm", 6}, {"smsremove", 10}, {"smsresend", 5}, {"regen", 1}, {"evstart", 8}, {"evend", 12}, {"newsess", 4}, {"logout", 3},
-	{"get", 6}, {"advance", 4}, {"snip:remember", 4}, {"snip:2fa", 6}, {"snip:enrol-totp", 2}, {"snip:enrol-sms", 2}, {"snip:settings", 14}, {"snip:rememberedpoke", 8}, {"snip:rec2fa", 6},
+	{"get", 6}, {"advance", 4}, {"snip:remember", 4}, {"snip:2fa", 6}, {"snip:enrol-totp", 2}, {"snip:enrol-sms", 2}, {"snip:settings", 14}, {"snip:rememberedpoke", 8}, {"snip:rec2fa", 6}, {"snip:evcarry", 8},
 }
 
 var profC13 = profile{
@@ -347,6 +347,19 @@ var profC13 = profile{
 		}
 		c.EmailAuth = chance(t, "emailauth13", 55)
 		c.App2FAHook = chance(t, "app2fahook", 30)
+		if len(c.Accounts) >= 2 && chance(t, "casetwins", 25) {
+			// two different accounts whose identifiers differ only in case (identifiers are case-sensitive strings to the library)
+			p0 := c.Accounts[0].PID
+			c.Accounts[1].PID = strings.ToUpper(p0[:1]) + p0[1:]
+			if c.Accounts[1].PID == p0 {
+				c.Accounts[1].PID = strings.ToLower(p0[:1]) + p0[1:]
+			}
+			if c.Username {
+				c.Accounts[1].Email = "twin@mail.io"
+			} else {
+				c.Accounts[1].Email = ""
+			}
+		}
 		if c.Middleware == "remember" && chance(t, "nilstate13", 30) {
 			c.NilEmptyState = true
 		}
